@@ -1,9 +1,168 @@
 import Driver.Util
+import Lattigo.Model.Params
 
+/-
+  C19 line protocol (all tokens after the op name are `key=value`; vectors `a,b,c`, `-` = empty
+  slice, `nil` = nil slice):
+
+    isprime n=<u64>                                    → 0|1
+    overlap dir=<u|d> size=<S> c=<u64>                 → 0|1          (the generator's float tests)
+    gen dir=<0|1|2> bits=<S> root=<NthRoot> k=<count>  → ok <vec> | err | hang
+    genmoduli root=<LogNthRoot> logQ=<ivec> logP=<ivec>→ ok Q=<vec> P=<vec> | err:<cls> | panic | hang
+    rlwe_new logN= root= rt= Q= P= LogQ= LogP= xs=<def|H:h> xe=<def|G:s>
+                                                       → accept Q= P= nthroot= | err:<cls> | panic | hang
+    ckks_new  (same keys) lds=<LogDefaultScale>        → idem, plus err:logDefaultScale
+    bgv_new logN= rt= Q= P= t=                         → accept nT= slots= logslots= qmul= | err:<cls>
+    derived logN= rt= Q= P= lds= ks=<ivec> is=<b:n;…> tr=<ivec>
+    exported name= logN= xsH= Q= P=                    → bitQ= bitP= bitQP= kind= table= within= strict=
+    table logN= kind=                                  → <T> | none
+-/
 namespace Driver.C19
-open Driver
+open Driver Lattigo Lattigo.Params
 
-/-- stub: replaced by the property's real handler -/
-def handle (_toks : List String) : String := badOp
+def optVec? (s : String) : Option (Option (List Nat)) :=
+  if s == "nil" then some none else (parseVec? s).map some
+
+def optIVec? (s : String) : Option (Option (List Int)) :=
+  if s == "nil" then some none else (parseIVec? s).map some
+
+def showRes {α} (f : α → String) : Res α → String
+  | .ok a => f a
+  | .err c => "err:" ++ c
+  | .panic => "panic"
+  | .hang => "hang"
+
+def b2s (b : Bool) : String := if b then "1" else "0"
+
+/-- `xs=def | H:<h>`: weight 0 iff `H:0` (Ternary{H:0,P:0}) -/
+def xsWeight0? (s : String) : Option Bool :=
+  if s == "def" then some false
+  else match s.splitOn ":" with
+    | ["H", h] => h.toNat?.map (· == 0)
+    | _ => none
+
+/-- `xe=def | G:<sigma>`: std ≤ 0 iff sigma = 0 -/
+def xeStd0? (s : String) : Option Bool :=
+  if s == "def" then some false
+  else match s.splitOn ":" with
+    | ["G", h] => h.toNat?.map (· == 0)
+    | _ => none
+
+def parseLiteral? (toks : List String) : Option Literal := do
+  let logN ← (← kv? toks "logN").toInt?
+  let root ← (← kv? toks "root").toInt?
+  let rt ← (← kv? toks "rt").toNat?
+  let q ← optVec? (← kv? toks "Q")
+  let p ← optVec? (← kv? toks "P")
+  let lq ← optIVec? (← kv? toks "LogQ")
+  let lp ← optIVec? (← kv? toks "LogP")
+  let xs ← xsWeight0? (← kv? toks "xs")
+  let xe ← xeStd0? (← kv? toks "xe")
+  some { logN := logN, logNthRoot := root, q := q, p := p, logQ := lq, logP := lp,
+         ringType := rt, xsWeight0 := xs, xeStd0 := xe }
+
+def showAccepted (a : Accepted) : String :=
+  s!"accept Q={showVec a.q} P={showVec a.p} nthroot={a.nthRoot}"
+
+def parseAccepted? (toks : List String) : Option Accepted := do
+  let logN ← (← kv? toks "logN").toNat?
+  let rt ← (← kv? toks "rt").toNat?
+  let q ← parseVec? (← kv? toks "Q")
+  let p ← parseVec? (← kv? toks "P")
+  some { logN := logN, q := q, p := p, ringType := rt }
+
+def parsePairs? (s : String) : Option (List (Int × Int)) :=
+  if s == "-" then some [] else
+  (s.splitOn ";").mapM fun t =>
+    match t.splitOn ":" with
+    | [a, b] => do some (← a.toInt?, ← b.toInt?)
+    | _ => none
+
+def handleDerived (toks : List String) : Option String := do
+  let a ← parseAccepted? toks
+  let lds ← (← kv? toks "lds").toInt?
+  let ks ← parseIVec? (← kv? toks "ks")
+  let is ← parsePairs? (← kv? toks "is")
+  let tr ← parseVec? (← kv? toks "tr")
+  let gal := ks.map a.galoisElement
+  let galInv := gal.map a.modInvGaloisElement
+  let isum := is.map fun (b, n) => showVec (a.galoisInnerSum b n)
+  let rep := is.map fun (b, n) => showVec (a.galoisInnerSum (-b) n)
+  let trs := tr.map fun l => showVec (if a.ringType = 0 then a.galoisTrace l else [])
+  some (s!"N={a.n} nthroot={a.nthRoot} lognthroot={a.logNthRoot} maxlevel={a.maxLevel} " ++
+    s!"maxlevelP={a.maxLevelP} qcount={a.q.length} pcount={a.p.length} " ++
+    s!"slots={a.ckksMaxSlots} logslots={a.ckksLogMaxSlots} depth={a.ckksMaxDepth lds} " ++
+    s!"bitQ={len64 a.qProd} bitP={if a.p.isEmpty then 0 else len64 a.pProd} " ++
+    s!"gal={showVec gal} galinv={showVec galInv} " ++
+    s!"isum={";".intercalate isum} rep={";".intercalate rep} tr={";".intercalate trs}")
+
+def handleExported (toks : List String) : Option String := do
+  let logN ← (← kv? toks "logN").toNat?
+  let xsH ← (← kv? toks "xsH").toNat?
+  let q ← parseVec? (← kv? toks "Q")
+  let p ← parseVec? (← kv? toks "P")
+  let kind := secretKind logN xsH
+  let tbl := match tableMax logN kind with
+    | some t => toString t
+    | none => "none"
+  some (s!"bitQ={len64 (prodList q)} bitP={if p.isEmpty then 0 else len64 (prodList p)} " ++
+    s!"bitQP={len64 (prodList q * prodList p)} kind={kind} table={tbl} " ++
+    s!"within={b2s (withinTable logN xsH q p)} strict={b2s (withinTableStrict logN xsH q p)}")
+
+def handle (toks : List String) : String :=
+  match toks with
+  | "isprime" :: rest =>
+    match (kv? rest "n").bind String.toNat? with
+    | some n => b2s (goOracle.isPrime n)
+    | none => badOp
+  | "overlap" :: rest =>
+    match (kv? rest "dir", (kv? rest "size").bind String.toNat?, (kv? rest "c").bind String.toNat?) with
+    | (some "u", some s, some c) => b2s (goOracle.stopUp s c)
+    | (some "d", some s, some c) => b2s (goOracle.stopDown s c)
+    | _ => badOp
+  | "gen" :: rest =>
+    match ((kv? rest "dir").bind String.toNat?, (kv? rest "bits").bind String.toNat?,
+           (kv? rest "root").bind String.toNat?, (kv? rest "k").bind String.toNat?) with
+    | (some d, some b, some r, some k) =>
+      match genPrimes goOracle driverFuel d b r k with
+      | .ok ps => "ok " ++ showVec ps
+      | .err _ => "err"
+      | .panic => "panic"
+      | .hang => "hang"
+    | _ => badOp
+  | "genmoduli" :: rest =>
+    match ((kv? rest "root").bind String.toInt?, (kv? rest "logQ").bind parseIVec?,
+           (kv? rest "logP").bind parseIVec?) with
+    | (some l, some lq, some lp) =>
+      showRes (fun (qp : List Nat × List Nat) => s!"ok Q={showVec qp.1} P={showVec qp.2}")
+        (genModuli goOracle driverFuel l lq lp)
+    | _ => badOp
+  | "rlwe_new" :: rest =>
+    match parseLiteral? rest with
+    | some lit => showRes showAccepted (newParametersFromLiteral goOracle driverFuel lit)
+    | none => badOp
+  | "ckks_new" :: rest =>
+    match (parseLiteral? rest, (kv? rest "lds").bind String.toInt?) with
+    | (some lit, some lds) =>
+      match newParametersFromLiteral goOracle driverFuel lit with
+      | .ok a => if lds > 128 then "err:logDefaultScale" else showAccepted a
+      | r => showRes showAccepted r
+    | _ => badOp
+  | "bgv_new" :: rest =>
+    match (parseAccepted? rest, (kv? rest "t").bind String.toNat?) with
+    | (some a, some t) =>
+      showRes (fun (b : BgvAccepted) =>
+          s!"accept nT={b.nT} slots={b.maxSlots} logslots={b.logMaxSlots} qmul={showVec b.qMul}")
+        (bgvNew goOracle driverFuel a t)
+    | _ => badOp
+  | "derived" :: rest => (handleDerived rest).getD badOp
+  | "exported" :: rest => (handleExported rest).getD badOp
+  | "table" :: rest =>
+    match ((kv? rest "logN").bind String.toNat?, (kv? rest "kind").bind String.toNat?) with
+    | (some l, some k) => match tableMax l k with
+      | some t => toString t
+      | none => "none"
+    | _ => badOp
+  | _ => badOp
 
 end Driver.C19
